@@ -265,7 +265,7 @@ fn cmd_sim(a: &Args) -> i32 {
                             // another actor's monitor failing on a history with a crash is a C12 matter only if it
                             // concerns a survivor
                             let victim = v.actor.map(|a| actor_crashed(&out.log, a)).unwrap_or(false);
-                            if victim && !matches!(v.clause, "C03.complete" | "C05.panic" | "C04.stop_iff" | "C13.one_per_failure" | "C13.counter" | "C11.unique" | "C07.resolves" | "C03.after_end" | "C15.residue" | "C12.poisoned" | "C20.readable") {
+                            if victim && !matches!(v.clause, "C03.complete" | "C05.panic" | "C05.result" | "C04.stop_iff" | "C13.one_per_failure" | "C13.counter" | "C11.unique" | "C07.resolves" | "C03.after_end" | "C15.residue" | "C12.poisoned" | "C20.readable") {
                                 continue;
                             }
                             vp = "C12".to_string();
